@@ -8,6 +8,23 @@ ALL = [f"C{i:02d}" for i in range(1, 21)]
 
 # pid -> (technique, level text, level note, design ref)
 CHECKS = {
+    "C06": (
+        "Coq proof (refinement of circuit.py's pruned deques to an epoch specification by induction over histories; opening rule as iff) tied by in-Coq correspondence on breaker histories incl. exhaustive small scope",
+        "Theorems C06_* hold for every breaker configuration and every monotone history of the Gallina model of circuit.py; "
+        "the model is compared with /repo's CircuitBreaker inside Coq on random boundary-biased and exhaustively enumerated "
+        "small histories; disagreements that start while the model is CLOSED are attributed to C06.",
+        "Trusted: Coq kernel + vm_compute; hand-written model Breaker.v (tied by correspondence only); Python driver, virtual "
+        "clock; non-decreasing clock; 1/64 s grid; constructor preconditions.",
+        "DESIGN.md §5 C06",
+    ),
+    "C07": (
+        "Coq proof (state-machine lemmas over all histories: fail-fast window, single probe, close/reopen) tied by in-Coq correspondence on breaker histories and policy-level histories/interleavings",
+        "Theorems C07_* hold for every configuration and history of the specification machine that C06_refinement ties to the "
+        "circuit.py model; correspondence on open/half-open-cycle histories (random + exhaustive small scope), disagreements that "
+        "start while OPEN/HALF_OPEN are attributed to C07.",
+        "Trusted: as C06; policy-level part additionally trusts the scripted-world harness and hand-driven coroutines.",
+        "DESIGN.md §5 C07",
+    ),
     "C10": (
         "Coq proof (refinement of the pruned deque to the grant history + window-bound invariant by induction over histories) tied by in-Coq correspondence on Budget histories",
         "Theorems C10_refinement / C10_window_bound / C10_refuse_only_when_full / C10_remaining / C10_boundary hold for every "
